@@ -74,6 +74,24 @@ _root.addHandler(_capture)
 _root.setLevel(logging.DEBUG)
 
 
+def disp_arg(doubles, form):
+    """the `disposables=` argument in one of its legal forms: a list (default), a tuple, a one-shot
+    iterable (generator / iterator), a Disposables object built by the caller"""
+    if not doubles:
+        return None
+    if form == "tuple":
+        return tuple(doubles)
+    if form == "generator":
+        return (d for d in doubles)
+    if form == "iterator":
+        return iter(list(doubles))
+    if form == "object":
+        from haiway.context.disposables import Disposables
+
+        return Disposables(*doubles)
+    return doubles
+
+
 def number_blocks(block, counter=None):
     counter = counter if counter is not None else [0]
     if block is None:
@@ -336,7 +354,7 @@ class Run:
         try:
             self.phase[:] = ["entering", bid]
             if kind == "ascope":
-                cm = pre["cm"] if pre else ctx.scope(f"b{bid}", *states, disposables=doubles or None)
+                cm = pre["cm"] if pre else ctx.scope(f"b{bid}", *states, disposables=disp_arg(doubles, b.get("disp_form")))
                 async with cm:
                     await self.body(b, [*env, level], bid)
             elif kind == "sscope":
@@ -487,6 +505,29 @@ class Run:
                         self.spawn_refused.append((h["name"], type(exc).__name__))
                 raise
 
+        # the callable handed to ctx.spawn: the coroutine function itself, or another legal form -
+        # an object with `async def __call__`, a lambda / plain function returning the coroutine,
+        # a functools.partial, a haiway wrapper object (timeout) around it
+        form = sp.get("callable")
+        if form == "object":
+            inner_child = child
+
+            class _Callable:
+                async def __call__(self):
+                    return await inner_child()
+
+            child = _Callable()
+        elif form == "lambda":
+            inner_child2 = child
+            child = lambda: inner_child2()  # noqa: E731
+        elif form == "partial":
+            import functools
+
+            child = functools.partial(child)
+        elif form == "wrapped":
+            from haiway.helpers.timeouted import timeout as _timeout
+
+            child = _timeout(10_000.0)(child)
         try:
             via = sp.get("via")
             if via == "sscope":
